@@ -162,7 +162,24 @@ def describe(d, S):
     return json.dumps(d)
 
 
-def qualifiers(d, oor, n):
+def addressing(d, n):
+    """position (0-based) -> list of the raw python indices of the decorator that address it"""
+    k, ix, iv = d["k"], d["ix"], d["iv"]
+    raw = []
+    if k in ("as",):
+        raw = [m[1] for m in iv]
+    elif k in ("sync", "partial"):
+        raw = [m[0] for m in iv]
+    elif ix != [NONE]:
+        raw = list(ix)
+    pos = {}
+    for i in raw:
+        if -n <= i < n:
+            pos.setdefault(i if i >= 0 else n + i, []).append(i)
+    return pos, raw
+
+
+def qualifiers(d, n, failing):
     """stable qualifiers that make a violation key name the class of the failing case"""
     q = []
     k, ix, p, iv = d["k"], d["ix"], d["p"], d["iv"]
@@ -181,21 +198,17 @@ def qualifiers(d, oor, n):
         q.append("scaled-form")
     if d["g"] == 1:
         q.append("inner=x+0.5")
-    idxs = []
-    if ix != [NONE]:
-        idxs = list(ix)
-    if k in ("as", "sync"):
-        idxs = [m[0] for m in iv] + [m[1] for m in iv]
-    if k in ("partial", "masked"):
-        idxs = [m[0] for m in iv]
-    if any(not (-n <= i < n) for i in idxs):
-        if k == "as" and any(not (-n <= m[0] < n) for m in iv):
-            q.append("oor-source")
-        q.append("oor-index")
-    elif any(i < 0 for i in idxs):
-        q.append("neg-index")
+    pos, raw = addressing(d, n)
+    others = [m[0] for m in iv] if k == "as" else ([m[1] for m in iv] if k == "sync" else [])
     if n == 0:
         q.append("empty-input")
+    else:
+        if k == "as" and any(not (-n <= i < n) for i in others):
+            q.append("oor-source")
+        elif any(not (-n <= i < n) for i in raw + others):
+            q.append("oor-index")
+        if failing and all(pos.get(e) and all(i < 0 for i in pos[e]) for e in failing):
+            q.append("neg-index")
     return q
 
 
@@ -220,49 +233,50 @@ def in_ranges(o, ranges, S):
     return False
 
 
-def judge(exp, xs, out, S):
-    """compare the real output with what the specification expects; returns list of problem names"""
-    probs = []
+def judge(exp, xs, out, S, loose=False):
+    """compare the real output with what the specification expects -> list of (problem, failing 0-based entries)"""
+    def named(bad, default):
+        # a selected entry that simply kept its input value is its own class of failure
+        if bad and len(out) == len(xs) and all(float(out[i]).hex() == float(xs[i]).hex() for i in bad):
+            return [("no-effect", bad)]
+        return [(default, bad)] if bad else []
     if isinstance(exp, list):
         want = [e / S for e in exp]
         if len(out) != len(want):
-            return ["wrong-length"]
-        if any(o != w for o, w in zip(out, want)):
-            probs.append("wrong-value")
-        return probs
+            return [("wrong-length", [])]
+        return named([i for i, (o, w) in enumerate(zip(out, want)) if o != w], "wrong-value")
     if "v" in exp:
         want = [Fraction(e, S * exp["k"]) for e in exp["v"]]
         if len(out) != len(want):
-            return ["wrong-length"]
-        for o, w in zip(out, want):
+            return [("wrong-length", [])]
+        bad = []
+        for i, (o, w) in enumerate(zip(out, want)):
             if o != o or o in (float("inf"), float("-inf")):
-                probs.append("wrong-value"); break
-            if exp["ex"]:
+                bad.append(i)
+            elif exp["ex"] and not loose:
                 if Fraction(o) != w:
-                    probs.append("wrong-value"); break
+                    bad.append(i)
             elif abs(Fraction(o) - w) > Fraction(1, 10 ** 12) * max(1, abs(w)):
-                probs.append("wrong-value"); break
-        return probs
+                bad.append(i)
+        return named(bad, "wrong-value")
     if "pc" in exp:
         if len(out) != len(xs):
-            return ["wrong-length"]
+            return [("wrong-length", [])]
         if any(o != o for o in out):
-            return ["wrong-value"]
+            return [("wrong-value", [])]
         fo = [Fraction(o) for o in out]
         m = sum(fo) / len(fo)
         var = sum((o - m) ** 2 for o in fo) / len(fo)
         tol = Fraction(1, 10 ** 9)
         if abs(m - Fraction(exp["m"][0], exp["m"][1])) > tol or abs(var - Fraction(exp["t"][0], exp["t"][1])) > tol:
-            probs.append("wrong-moment")
-        return probs
+            return [("wrong-moment", [])]
+        return []
     allowed = exp["a"]
     if len(out) != len(allowed):
-        return ["wrong-length"]
-    for o, ranges in zip(out, allowed):
-        if not in_ranges(o, ranges, S):
-            probs.append("not-in-target"); break
+        return [("wrong-length", [])]
+    probs = named([i for i, (o, ranges) in enumerate(zip(out, allowed)) if not in_ranges(o, ranges, S)], "not-in-target")
     if exp["u"] and len(set(out)) != len(out):
-        probs.append("not-distinct")
+        probs.append(("not-distinct", []))
     return probs
 
 
@@ -283,7 +297,7 @@ def replay_cases(header, lines, mc, mt, np, corrupt=False):
     cat, foot, oor = header["cat"], header["foot"], header["oor"]
     fns = {}
     res = {"evaluations": 0, "nontrivial": set(), "undefined": 0, "viol": {}, "nviol": {}, "samples": [],
-           "classes": {}, "lines": len(lines)}
+           "classes": {}, "lines": len(lines), "per_kind": {}}
 
     def add_violation(key, detail, what):
         res["nviol"][key] = res["nviol"].get(key, 0) + 1
@@ -300,8 +314,10 @@ def replay_cases(header, lines, mc, mt, np, corrupt=False):
         for di, exp in enumerate(ln["e"]):
             d = cat[di]
             k = d["k"]
+            pk = res["per_kind"].setdefault(k, [0, 0, 0])      # cases, non-trivial, premise not met
             if exp == 0:
                 res["undefined"] += 1
+                pk[2] += 1
                 continue
             if corrupt and ln_no == len(lines) // 2 and isinstance(exp, list) and exp:
                 exp = [exp[0] + 1] + exp[1:]          # self-test: a corrupted expected value must be noticed
@@ -321,41 +337,53 @@ def replay_cases(header, lines, mc, mt, np, corrupt=False):
                 try:
                     out = as_floats(fn(xin))
                 except Exception as ex:
-                    per_kind[kind] = ["raises-" + type(ex).__name__]
+                    per_kind[kind] = [("raises-" + type(ex).__name__, [])]
                     got[kind] = repr(ex)
                     continue
                 got[kind] = out
                 probs += judge(exp, xs, out, S)
                 plain = d["g"] == 0 and k != "masked"
                 if plain and k not in STAT and len(out) == n:
-                    if any(float(out[i]).hex() != float(xs[i]).hex() for i in range(n) if (i + 1) not in fp):
-                        probs.append("unselected-changed")
-                if k not in INPLACE_OK and not same_bits(as_floats(xin), xs):
-                    probs.append("input-mutated")
-                if plain and "wrong-length" not in probs:
+                    bad = [i for i in range(n) if (i + 1) not in fp and float(out[i]).hex() != float(xs[i]).hex()]
+                    if bad:
+                        probs.append(("unselected-changed", bad))
+                # output-rewriting monotonic/sorting around the identity receive the input object itself as "output"
+                aliased = k in ("monotonic", "sorting") and d["p"][1] == 1 and d["g"] == 0
+                if k not in INPLACE_OK and not aliased and not same_bits(as_floats(xin), xs):
+                    probs.append(("input-mutated", []))
+                if plain and not any(pr == "wrong-length" for pr, _ in probs):
                     try:
                         out2 = as_floats(fn(make_input(out, kind, np)))
-                        if len(out2) != len(out) or any(a != b for a, b in zip(out, out2)):
-                            probs.append("not-idempotent")
+                        inexact = isinstance(exp, dict) and (("v" in exp and not exp["ex"]) or "pc" in exp)
+                        if len(out2) != len(out) or any((abs(a - b) > 1e-12 * max(1.0, abs(a))) if inexact else (a != b)
+                                                        for a, b in zip(out, out2)):
+                            probs.append(("not-idempotent", []))
                             got[kind + "-twice"] = out2
                     except Exception as ex:
-                        probs.append("second-application-raises-" + type(ex).__name__)
+                        probs.append(("second-application-raises-" + type(ex).__name__, []))
                 per_kind[kind] = probs
+            pk[0] += 1
+            pk[1] += 1 if nontriv else 0
+            if isinstance(exp, dict):
+                cls("post-condition (allowed ranges)" if "a" in exp else ("moment: variance post-condition" if "pc" in exp
+                    else ("moment: exact" if exp["ex"] else "moment: 1e-12")))
             if nontriv:
                 cls("changed")
             else:
                 cls("conforming-unchanged")
             if oor[di][n]:
                 cls("out-of-range-index")
-            allp = set(per_kind.get("list", [])) | set(per_kind.get("array", []))
-            for pr in sorted(allp):
-                where = [kd for kd in ("list", "array") if pr in per_kind.get(kd, [])]
-                quals = qualifiers(d, oor, n)
+            allp = sorted(set(pr for kd in per_kind for pr, _ in per_kind[kd]))
+            for pr in allp:
+                where = [kd for kd in ("list", "array") if any(q == pr for q, _ in per_kind.get(kd, []))]
+                failing = sorted(set(e for kd in where for q, es in per_kind[kd] if q == pr for e in es))
+                quals = qualifiers(d, n, failing)
                 if len(where) == 1:
                     quals.append(where[0] + "-only")
                 key = ":".join([k, pr] + quals)
                 add_violation(key, {"decorator": describe(d, S), "record": d, "input": xs, "expected(spec units 1/%d)" % S: exp,
-                                    "got": got, "footprint(1-based)": sorted(fp), "input_kinds_failing": where},
+                                    "got": got, "footprint(1-based)": sorted(fp), "failing_entries(0-based)": failing,
+                                    "input_kinds_failing": where},
                               "%s on %s (%s): %s; spec %s, mystic %s" % (describe(d, S), xs, "/".join(where), pr,
                                                                            json.dumps(exp)[:200], json.dumps(got, default=str)[:300]))
             if not allp and len(res["samples"]) < 3 and nontriv and (ln_no * 7 + di) % 997 == 0:
@@ -440,6 +468,7 @@ def replay_scripts(header, lines, mc, mt, np, stride=1, offset=0):
 # ------------------------------------------------------------------------------------------ orchestration
 CACHE = {}          # (cfg, part, nparts) -> (header, lines, stats): filled by the self-test so TLC runs once
 OPTS = {"corrupt": False}
+FLAGS = {"fixes": False}
 
 
 def work(job):
@@ -490,7 +519,10 @@ def run_all(ck, a, jobs):
             results = pool.map(work, jobs, chunksize=1)
     undefined = 0
     classes = {}
+    per_kind = {}
     for res in results:
+        for k, v in res.get("per_kind", {}).items():
+            per_kind[k] = [x + y for x, y in zip(per_kind.get(k, [0, 0, 0]), v)]
         st = res["stats"]
         name = "%s[%d/%d]" % (res["job"][1].replace(".cfg", ""), res["job"][2], res["job"][3])
         ck.mc(st, name)
@@ -526,6 +558,7 @@ def run_all(ck, a, jobs):
                     ck.viol_keys[key] = ck.viol_keys.get(key, 0) + rest
     ck.extra["premise_not_met_cases(skipped)"] = undefined
     ck.extra["case_classes"] = classes
+    ck.extra["per_decorator_kind[vector x decorator pairs, non-trivial, premise not met]"] = per_kind
     ck.extra["catalogue_sizes"] = {"%s[%d]" % (r["job"][1], r["job"][2]): r["ndecs"] for r in results}
     return results
 
@@ -533,6 +566,8 @@ def run_all(ck, a, jobs):
 def new_check(a):
     ck = Check("C16", "exploration", a.tier, a.seed, rule=RULE)
     ck.exhaustive = True
+    if FLAGS["fixes"]:
+        ck.extra["WARNING"] = "run with --with-proposed-fixes: mystic was patched in memory; this is NOT evidence about the tree"
     ck.assumptions = [
         "inputs are float lists and float64 arrays whose entries are halves (quick: -1.5..2.5, thorough: -2..2.5; a side configuration "
         "uses multiples of 5 up to 25 for digits=-1), so the decorators' float arithmetic is exact and compared with ==; the four moment "
@@ -550,6 +585,94 @@ def new_check(a):
         "trusted base: TLC's evaluation of Transforms.tla, the JSON emission, and the harness' construction of the real decorator from a catalogue record",
     ]
     return ck
+
+
+# ------------------------------------------------------------------------------------------ proposed fixes
+# Textual patches of /repo/mystic (applied IN MEMORY only, with --with-proposed-fixes) for the disagreements this check
+# reports on the unchanged tree; they exist to show that the specification is met by a repaired implementation.
+PROPOSED_FIXES = [
+    # (module, function, old text, new text, violation classes it removes)
+    ("constraints", "bounded",
+     "    at = at if index is None else intersect1d(at, index)\n",
+     "    if index is not None: # python indexing: negative counts from the end, out-of-range is ignored\n"
+     "        index = [i + len(seq) if i < 0 else i for i in index if -len(seq) <= i < len(seq)]\n"
+     "    at = at if index is None else intersect1d(at, index)\n",
+     "bounds:no-effect:*neg-index"),
+    ("constraints", "bounded",
+     "            seq[at] = _clip(seq_at, *(b[abs(seq_at.reshape(-1,1)-b).argmin(axis=1)] for b in bounds))\n",
+     "            near = minimum(*(abs(seq_at.reshape(-1,1)-b) for b in bounds)).argmin(axis=1) # the nearest interval\n"
+     "            seq[at] = _clip(seq_at, bounds[0][near], bounds[1][near])\n",
+     "bounds:not-in-target:multi-interval*"),
+    ("constraints", "discrete",
+     "                try: mask[sorted(index[0], key=abs)] = True\n                except IndexError: pass\n",
+     "                for i in index[0]: # out-of-range members are ignored\n"
+     "                    if -mask.size <= i < mask.size: mask[i] = True\n",
+     "discrete:no-effect:oor-index"),
+    ("constraints", "discrete",
+     "            if isinstance(x, ndarray): xtype = asarray\n            else: xtype = type(x)\n            arglo, arghi = argnear(x)\n",
+     "            if isinstance(x, ndarray): xtype = asarray\n            else: xtype = type(x)\n"
+     "            if hasattr(x, '__len__') and not len(x): return f(x, *args, **kwds)\n            arglo, arghi = argnear(x)\n",
+     "discrete:raises-ValueError:empty-input"),
+    ("constraints", "integers",
+     "                try: mask[sorted(index[0], key=abs)] = True\n                except IndexError: pass\n",
+     "                for i in index[0]: # out-of-range members are ignored\n"
+     "                    if -mask.size <= i < mask.size: mask[i] = True\n",
+     "integers:no-effect:oor-index"),
+    ("constraints", "integers",
+     "            xp = choose(mask, (x,xp)).astype(_ints[0])\n",
+     "            xp = choose(mask, (x,xp))\n            xi = xp.astype(_ints[0])\n"
+     "            if (xi == xp).all(): xp = xi # never truncate entries that were not selected\n",
+     "integers:*:ints=True"),
+    ("constraints", "rounded",
+     "                try: mask[sorted(index[0], key=abs)] = True\n                except IndexError: pass\n",
+     "                for i in index[0]: # out-of-range members are ignored\n"
+     "                    if -mask.size <= i < mask.size: mask[i] = True\n",
+     "rounded:no-effect:oor-index"),
+    ("constraints", "precision",
+     "                try: mask[sorted(index[0], key=abs)] = True\n                except IndexError: pass\n",
+     "                for i in index[0]: # out-of-range members are ignored\n"
+     "                    if -mask.size <= i < mask.size: mask[i] = True\n",
+     "precision:no-effect:oor-index"),
+    ("constraints", "impose_as",
+     "            pairs = connected(mask)\n",
+     "            n = len(x) # pairs with an out-of-range member are ignored\n"
+     "            _mask = [(i,j) for (i,j) in mask if -n <= i < n and -n <= j < n]\n"
+     "            pairs = connected(_mask)\n",
+     "as:*:oor-source"),
+    ("constraints", "impose_as",
+     "            pairs = list(mask) #XXX: inefficient\n",
+     "            pairs = list(_mask) #XXX: inefficient\n",
+     "as:*:oor-source"),
+    ("tools", "synchronized",
+     "                try: x[i] = x[j]\n"
+     "                except TypeError: # value is tuple with f(x) or constant\n"
+     "                  j0,j1 = (j[:2] + (1,))[:2]\n"
+     "                  try: x[i] = j1(x[j0]) if isinstance(j1, _Callable) else j1*x[j0]\n"
+     "                  except IndexError: pass\n"
+     "                except IndexError: pass\n",
+     "                try:\n"
+     "                  if isinstance(j, tuple): # value is tuple with f(x) or constant\n"
+     "                    j0,j1 = (j[:2] + (1,))[:2]\n"
+     "                    x[i] = j1(x[j0]) if isinstance(j1, _Callable) else j1*x[j0]\n"
+     "                  else: x[i] = x[j]\n"
+     "                except IndexError: pass\n",
+     "sync:no-effect:scaled-form*"),
+]
+
+
+def apply_proposed_fixes():
+    import inspect, importlib
+    srcs = {}
+    for mod, name, old, new, _ in PROPOSED_FIXES:
+        m = importlib.import_module("mystic." + mod)
+        src = srcs.get((mod, name)) or inspect.getsource(getattr(m, name))
+        if old not in src:
+            raise RuntimeError("proposed fix for %s.%s does not apply (source changed?)" % (mod, name))
+        srcs[(mod, name)] = src.replace(old, new)
+    for (mod, name), src in srcs.items():
+        m = importlib.import_module("mystic." + mod)
+        exec(compile(src, "<proposed fix %s.%s>" % (mod, name), "exec"), m.__dict__)
+    print("NOTE: running with %d proposed in-memory fixes of mystic (not the tree under test)" % len(PROPOSED_FIXES))
 
 
 # ------------------------------------------------------------------------------------------ self-test
@@ -647,7 +770,7 @@ def selftest(a):
         try:
             with contextlib.redirect_stdout(buf):
                 run_all(ck, a, jobs)
-            new = {k: v for k, v in ck.viol_keys.items() if v > base_keys.get(k, 0)}
+            new = {k: v - base_keys.get(k, 0) for k, v in ck.viol_keys.items() if v > base_keys.get(k, 0)}
         except Exception as ex:
             new = {"harness-raised:" + repr(ex)[:80]: 1}
         finally:
@@ -665,8 +788,14 @@ def selftest(a):
 
 
 def main():
+    fixes = "--with-proposed-fixes" in sys.argv
+    if fixes:
+        sys.argv.remove("--with-proposed-fixes")
     a = tier_seed()
     assert_repo()
+    if fixes:
+        apply_proposed_fixes()
+    FLAGS["fixes"] = fixes
     if a.selftest:
         return selftest(a)
     ck = new_check(a)
